@@ -17,7 +17,7 @@ pub struct FSpec {
     /// image labels encode (object, position) -- a mis-routed leg then changes the iso class
     pub distinct_images: bool,
     /// 0 single operation, 1 composite of two, 2 spider only, 3 single + scalar + isolated node,
-    /// 4 chosen per operation label
+    /// 4 operation(s) on a shared / non-injective boundary (possibly cyclic), 5 chosen per operation label
     pub op: u8,
 }
 
@@ -29,7 +29,7 @@ impl FSpec {
             2 => [0, 0, 0],
             _ => [r.below(4), r.below(4), r.below(4)],
         };
-        FSpec { lens, distinct_images: r.chance(2, 3), op: r.below(5) as u8 }
+        FSpec { lens, distinct_images: r.chance(2, 3), op: r.below(6) as u8 }
     }
     pub fn obj(&self, o: &u32) -> Vec<u32> {
         let n = self.lens[(*o % 3) as usize];
@@ -41,7 +41,7 @@ impl FSpec {
     pub fn op(&self, l: &u64, st: &[u32], tt: &[u32]) -> POh<u32, u64> {
         let fa = self.ty(st);
         let fb = self.ty(tt);
-        let kind = if self.op == 4 { (*l % 4) as u8 } else { self.op };
+        let kind = if self.op == 5 { (*l % 5) as u8 } else { self.op };
         let (na, nb) = (fa.len(), fb.len());
         match kind {
             1 => {
@@ -71,6 +71,34 @@ impl FSpec {
                 let pos = |x: &u32| labs.iter().position(|y| y == x).unwrap();
                 POh { s: fa.iter().map(pos).collect(), t: fb.iter().map(pos).collect(), w: labs, e: vec![] }
             }
+            4 => {
+                // target legs with equal labels share one node; the first target leg is the first source
+                // node when the labels allow it; for even labels a second operation closes a cycle
+                let mut w = fa.clone();
+                let mut first: Vec<(u32, usize)> = vec![];
+                let mut t: Vec<usize> = vec![];
+                for (j, x) in fb.iter().enumerate() {
+                    if j == 0 && na > 0 && fa[0] == *x {
+                        first.push((*x, 0));
+                        t.push(0);
+                        continue;
+                    }
+                    match first.iter().find(|(y, _)| y == x) {
+                        Some((_, n)) => t.push(*n),
+                        None => {
+                            w.push(*x);
+                            first.push((*x, w.len() - 1));
+                            t.push(w.len() - 1);
+                        }
+                    }
+                }
+                let distinct_t: Vec<usize> = first.iter().map(|p| p.1).collect();
+                let mut e = vec![PEdge { l: 500 + l, s: (0..na).collect(), t: distinct_t }];
+                if na > 0 && nb > 0 && l % 2 == 0 {
+                    e.push(PEdge { l: 600 + l, s: vec![t[0]], t: vec![0] });
+                }
+                POh { w, e, s: (0..na).collect(), t }
+            }
             3 => {
                 let mut p = POh::singleton(100 + l, fa, fb);
                 p.w.push(55);
@@ -85,8 +113,8 @@ impl FSpec {
     /// the gluing is left as pending unifications (so folding images with `tensor_assign` has to
     /// offset pending pairs correctly).
     pub fn op_lax(&self, l: &u64, st: &[u32], tt: &[u32]) -> PLax<u32, u64> {
-        let kind = if self.op == 4 { (*l % 4) as u8 } else { self.op };
-        if kind == 3 || (kind == 0 && *l % 2 == 1) {
+        let kind = if self.op == 5 { (*l % 5) as u8 } else { self.op };
+        if kind == 3 || ((kind == 0 || kind == 4) && *l % 2 == 1) {
             return explode(&self.op(l, st, tt));
         }
         if kind != 1 {
